@@ -256,6 +256,14 @@ impl InputState {
     }
 }
 
+#[cfg(feature = "verif-hooks")]
+impl InputState {
+    /// Cursor position inside the input field (verification hook).
+    pub fn verif_cursor(&self) -> usize {
+        self.input_index
+    }
+}
+
 impl<'a> Command<'a> {
     /// Try to parse a string into a Command.
     pub fn parse(input: &'a str) -> Result<Self, NomErr<(&str, NomErrorKind)>> {
